@@ -1,0 +1,19 @@
+//go:build verif
+
+package cluster
+
+import "github.com/lni/dragonboat/v4"
+
+// Exports for the verification harness in /verif (build tag "verif"); no behaviour.
+
+func VerifMergeShardInfo(current, update dragonboat.ShardView) dragonboat.ShardView {
+	return mergeShardInfo(current, update)
+}
+
+// VerifView wraps the unexported shard view.
+type VerifView struct{ v *shardView }
+
+func VerifNewView() *VerifView                                { return &VerifView{v: newView()} }
+func (w *VerifView) Update(us []dragonboat.ShardView)         { w.v.update(us) }
+func (w *VerifView) ShardInfo(id uint64) dragonboat.ShardView { return w.v.shardInfo(id) }
+func (w *VerifView) Copy() []dragonboat.ShardView             { return w.v.copy() }
